@@ -1484,3 +1484,62 @@ func (m *Model) RunNilFuncCall(s *Sink, rule string, fns []*ssa.Function) {
 	}
 	s.Note(rule, "function values taken out of maps and called", "-", "%d sites", n)
 }
+
+// RunHashableKeys: a map whose key type is an interface panics ("hash of unhashable type") when it is indexed with a
+// value whose dynamic type is a slice, a map or a function. The Go values of template objects are exactly that for
+// arrays and objects (`Val()` of an Array is []any). Every lookup, update or delete on such a map on a render path
+// uses a key whose static type under the interface is known and hashable (a constant, a string, a number, a pointer).
+func (m *Model) RunHashableKeys(s *Sink, rule string, fns []*ssa.Function) {
+	hashableUnder := func(v ssa.Value) bool {
+		switch x := v.(type) {
+		case *ssa.Const:
+			return true
+		case *ssa.MakeInterface:
+			switch x.X.Type().Underlying().(type) {
+			case *types.Basic, *types.Pointer, *types.Chan:
+				return true
+			}
+			return false
+		}
+		return false
+	}
+	n := 0
+	for _, fn := range fns {
+		if fn.Blocks == nil || !m.InModule(fn) {
+			continue
+		}
+		for _, b := range fn.Blocks {
+			for _, in := range b.Instrs {
+				var mp, key ssa.Value
+				switch x := in.(type) {
+				case *ssa.MapUpdate:
+					mp, key = x.Map, x.Key
+				case *ssa.Lookup:
+					mp, key = x.X, x.Index
+				case *ssa.Call:
+					if bi, isB := x.Call.Value.(*ssa.Builtin); isB && bi.Name() == "delete" && len(x.Call.Args) == 2 {
+						mp, key = x.Call.Args[0], x.Call.Args[1]
+					}
+				}
+				if mp == nil {
+					continue
+				}
+				mt, isMap := mp.Type().Underlying().(*types.Map)
+				if !isMap {
+					continue
+				}
+				if _, isIface := mt.Key().Underlying().(*types.Interface); !isIface {
+					continue
+				}
+				n++
+				k := fmt.Sprintf("%s|key of %s is hashable", fnKey(fn), valueDesc(mp))
+				if hashableUnder(key) {
+					s.OK(rule, k, m.InstrPos(in), "the key is a constant or a value of a hashable static type")
+				} else {
+					s.Violation(rule, k, m.InstrPos(in), "%s indexes the map %s, whose key type is an interface, with %s: when the value under the interface is a slice or a map (the Go value of an array or an object) the map operation panics with \"hash of unhashable type\"", fnKey(fn), valueDesc(mp), valueDesc(key))
+				}
+			}
+		}
+	}
+	s.Note(rule, "maps keyed by an interface on render paths", "-", "%d operations", n)
+}
